@@ -78,6 +78,21 @@ def axis_table_clause(model, rep, funcs):
             why = "" if okc else "the grid is not centred at (shape - 1) / 2"
         rep.ob("F", f.anchor, "local sampling grid = pos/scale + sum_k axis_k * (index_k - (shape_k-1)/2) with indices paired z,y,x and broadcast on array axes 1,2,3",
                bool(ok and okc), why, node=f.node, fn=f, clause="1 axis table", stmt="def local_coordinates")
+        # the grid itself has unit (one voxel) steps: only the molecule position is converted nm -> pixel, and the grid is not rescaled afterwards
+        b2: dict = {}
+        okp = M.has("$coords += (self.pos[$i] / scale)[:, np.newaxis, np.newaxis, np.newaxis]", b2) or \
+            M.has("$coords = $$g + (self.pos[$i] / scale)[:, np.newaxis, np.newaxis, np.newaxis]", b2)
+        whyp = "" if okp else "the position is not added as pos / scale (pixels) to the unit-step grid"
+        if okp:
+            cv = b2.get("coords")
+            cname = cv.id if isinstance(cv, ast.Name) else (cv if isinstance(cv, str) else None)
+            muts = [n for n in ast.walk(f.node) if isinstance(n, ast.AugAssign) and isinstance(n.target, ast.Name) and n.target.id == cname]
+            extra = [n for n in muts if not isinstance(n.op, ast.Add)]
+            if extra or len(muts) > 1:
+                okp = False
+                whyp = f"`{norm_src((extra or muts[1:])[0])}` rescales / shifts the whole grid after the position was added: grid steps are no longer one voxel"
+        rep.ob("U", f.anchor, "local grid: unit voxel steps along the molecule axes, offset by pos / scale (only the position is converted from nm to pixels)", okp, whyp,
+               node=f.node, fn=f, clause="1 axis table", stmt="def local_coordinates units")
     # from_axes: the missing axis is the cyclic cross product of the two given ones (x cross y = z, y cross z = x, z cross x = y), then (z, y) go to axes_to_rotator
     f = funcs.get(MC + "Molecules.from_axes")
     if f is not None:
@@ -339,3 +354,7 @@ def check(model, rep, tier):
     euler_clause(model, rep, funcs)
     copy_clause(model, rep, funcs)
     degenerate_clause(model, rep, funcs)
+    from .generic import cache_coherence_obligations
+    cache_coherence_obligations(model, rep, model.cls(MC + "Molecules"), "2 composition", names=("x", "y", "z", "pos", "rotator", "features", "quaternion", "matrix",
+                                                                                                   "rotvec", "euler_angle"))
+    rep.floor("CACHE", 5, "(pose accessors of Molecules)")
